@@ -119,7 +119,23 @@ def run(tier):
     chk = Check(PROP, tier)
     chk.model("MC_Vectors")
     chk.model("MC_GcmToy", cfg="MC_GcmToy_quick.cfg" if tier == "quick" else "MC_GcmToy.cfg", timeout=3000)
-    chk.exec_and_validate("T_GCM", gen(chk, tier), keyfn, cost=cost, accel=True, pure_budget=14000000)
+    cmds_all = gen(chk, tier)
+    chk.exec_and_validate("T_GCM", cmds_all, keyfn, cost=cost, accel=True, pure_budget=14000000)
+    # the fourth path: the arm64 kernel-plus-Go-glue code, transplanted onto the amd64 kernels
+    gcmds = [dict(c) for c in cmds_all if c.get("path", "asm") == "asm"]
+    keep = set(c["sc"] for c in gcmds if c["op"] == "gcm.aead")
+    gcmds = [c for c in gcmds if c["sc"] in keep]
+    if tier == "quick":
+        scs = sorted(keep)
+        sel = set(scs[::2])
+        gcmds = [c for c in gcmds if c["sc"] in sel]
+    for c in gcmds:
+        if c["op"] == "scenario":
+            c["cls"] = "glue_" + c.get("cls", "")
+
+    def gkey(b):
+        return "glue." + keyfn(b)
+    chk.exec_and_validate("T_GCM", gcmds, gkey, cost=cost, accel=True, pure_budget=0, tag="glue", variant="glue")
     return chk.finish(
         "model_checking",
         "Seal through the public AEAD on three implementation paths (fused assembly, standard-library generic GCM over "
@@ -129,7 +145,9 @@ def run(tier):
         "random; TLC recomputes ciphertext and tag with the pure TLA+ GCM over the pure TLA+ SM4",
         ["TLC; GCM.tla validated on every run by GCM-spec test case 2 and the RFC 8998 SM4-GCM vector",
          "lengths bounded (text/aad <= 1100, nonce <= 300)",
-         "arm64 Go glue and NEON kernels cannot be executed here"])
+         "the arm64 Go glue (sm4_gcm_arm64.go of the current tree) is exercised transplanted onto the amd64 kernels "
+         "(go build -overlay; the five NEON xorN routines replaced by Go loops); the NEON kernels themselves cannot "
+         "be executed here"])
 
 
 def replay(path):
